@@ -58,6 +58,7 @@ package ledger
 //@   ensures log.Data == old(log.Data) && log.IdempotencyKey == old(log.IdempotencyKey) && log.IdempotencyHash == old(log.IdempotencyHash) && log.SchemaVersion == old(log.SchemaVersion) && log.Type == old(log.Type)
 
 //@ assumed func (s Store) CommitTransaction(ctx context.Context, transaction *ledger.Transaction) (err error)
+//@   requires transaction != nil && wfPostings(transaction.Postings)
 //@   modifies writes, transaction
 //@   ensures writes == store(old(writes), s, old(writes)[s] + 1)
 //@   ensures transaction.Postings == old(transaction.Postings) && transaction.Metadata == old(transaction.Metadata) && transaction.Timestamp == old(transaction.Timestamp) && transaction.Reference == old(transaction.Reference)
@@ -68,7 +69,7 @@ package ledger
 //@   ensures lastRevertModified == (err == nil && modified)
 //@   ensures writes == store(old(writes), s, old(writes)[s] + 1)
 //@   ensures err == nil ==> tx != nil
-//@   ensures err == nil && modified ==> tx.RevertedAt != nil && tx.ID != nil && amountsNonNil(tx.Postings)
+//@   ensures err == nil && modified ==> tx.RevertedAt != nil && tx.ID != nil && amountsNonNil(tx.Postings) && wfPostings(tx.Postings)
 
 //@ assumed func (s Store) UpdateTransactionMetadata(ctx context.Context, transactionID uint64, m metadata.Metadata, at time.Time) (tx *ledger.Transaction, modified bool, err error)
 //@   modifies writes
@@ -206,7 +207,7 @@ package ledger
 //@   ensures forall h Store :: {writes[h]} {old(writes)[h]} h != store ==> writes[h] == old(writes)[h]
 
 //@ func (ctrl *DefaultController) createTransaction(ctx context.Context, store Store, schema *ledger.Schema, parameters Parameters[CreateTransaction]) (r *ledger.CreatedTransaction, err error)
-//@   property C07
+//@   property C07 C28
 //@   modifies writes
 //@   ensures forall h Store :: {writes[h]} {old(writes)[h]} h != store ==> writes[h] == old(writes)[h]
 //@   ensures err == nil ==> r != nil
@@ -214,7 +215,7 @@ package ledger
 //@     invariant accountMetadata[account] != nil
 
 //@ func (ctrl *DefaultController) revertTransaction(ctx context.Context, store Store, _schema *ledger.Schema, parameters Parameters[RevertTransaction]) (r *ledger.RevertedTransaction, err error)
-//@   property C06 C07 C15
+//@   property C06 C07 C15 C28
 //@   modifies writes, lastBalances, lastRevertModified
 //@   ensures !lastRevertModified ==> err != nil && writes[store] == old(writes)[store] + 1
 //@   ensures err == nil ==> has(r.RevertTransaction.Metadata, revertsKey()) && r.RevertTransaction.Metadata[revertsKey()] == str(deref(r.RevertedTransaction.ID))
@@ -445,7 +446,7 @@ package ledger
 // ---- import (C38): logs decoded from the request body are client data; a malformed one must not panic ----
 
 //@ func (ctrl *DefaultController) importLog(ctx context.Context, store Store, log ledger.Log) (err error)
-//@   property C38 C07
+//@   property C38 C07 C28
 //@   requires log.ID != nil
 //@   modifies writes, logs, lastRevertModified
 //@   ensures forall h Store :: {writes[h]} {old(writes)[h]} h != store ==> writes[h] == old(writes)[h]
